@@ -143,20 +143,26 @@ def typed_calls(rep):
             called.append(1)
             return main(b)
         calls.append(("build other name with spy", lambda: FileBuilder.build(cache, "zzz", spy)))
-        for name, f in calls:
-            s0 = snap()
-            try:
-                f()
-                fails.append({"oracle": "wrong call is rejected", "call": name})
-            except (TypeError, RuntimeError):
-                pass
-            except Exception as e:       # noqa
-                fails.append({"oracle": "wrong call raises TypeError/RuntimeError", "call": name, "got": repr(e)})
-            if snap() != s0:
-                fails.append({"oracle": "refused call leaves the tree bit-identical", "call": name})
-            if os.listdir(tmp):
-                fails.append({"oracle": "refused call leaves no temporary directory", "call": name})
-            rep.case(key=("typed", name), nontrivial=True)
+        # second round: the directories the previous build created have been removed by somebody else in
+        # the meantime - a refused call must not bring them back (nor touch anything else)
+        for variant in ("intact", "created-dirs-removed"):
+            if variant == "created-dirs-removed":
+                shutil.rmtree(os.path.join(root, "D"), ignore_errors=True)
+            for name, f in calls:
+                name = name + " [" + variant + "]"
+                s0 = snap()
+                try:
+                    f()
+                    fails.append({"oracle": "wrong call is rejected", "call": name})
+                except (TypeError, RuntimeError):
+                    pass
+                except Exception as e:       # noqa
+                    fails.append({"oracle": "wrong call raises TypeError/RuntimeError", "call": name, "got": repr(e)})
+                if snap() != s0:
+                    fails.append({"oracle": "refused call leaves the tree bit-identical", "call": name})
+                if os.listdir(tmp):
+                    fails.append({"oracle": "refused call leaves no temporary directory", "call": name})
+                rep.case(key=("typed", name), nontrivial=True)
         if called:
             fails.append({"oracle": "no user function is called by a refused call"})
     finally:
